@@ -20,3 +20,5 @@ example :
 #print axioms C02_acked_survive_reopen
 #print axioms C03_recovered_only_written
 #print axioms fixed_recovery_retired_a_split_segment
+#print axioms C07_reopen_same_contents
+#print axioms C07_recovered_below_next
